@@ -91,6 +91,10 @@ def build_base(cfg):
         zkutils.put(admin, z.path.partition(label), data)
     for name, parent in cfg['buckets']:
         masterapi.create_bucket(admin, name, parent)
+        if name in cfg.get('bucket_levels', {}):
+            # a bucket whose record states its level explicitly
+            zkutils.update(admin, z.path.bucket(name),
+                           {'level': cfg['bucket_levels'][name]})
         if parent is None and name not in cfg.get('out_of_cell', ()):
             masterapi.cell_insert_bucket(admin, name)
     sid = 10
@@ -588,6 +592,15 @@ class MasterWorld:
             if host not in present or not self.admin.exists(
                     z.path.placement(host, inst)):
                 self.admin.delete(z.path.running(inst))
+
+    def level_of(self, node):
+        """Topology level of a node of the master's tree, from ZooKeeper."""
+        if node is self.master.cell:
+            return 'cell'
+        if isinstance(node, S.Server):
+            return 'server'
+        rec = zkutils.get_default(self.admin, z.path.bucket(node.name)) or {}
+        return rec.get('level', node.name.split(':')[0])
 
     def _dup_target(self, idx, other):
         """(instance, server it is recorded under) if instance `idx` has
